@@ -563,6 +563,66 @@ JCombineProblems(e, st) ==
            ELSE Fail("CombineProblems:not-the-union", st)
 
 ----------------------------------------------------------------------------
+(* further public surface: state queries, shallow copies of domains, editing *)
+(* an action's precondition (the mutators learning algorithms use)           *)
+
+ObjectsOfState(s) == UNION {Range(g[2]) : g \in s.facts} \cup UNION {Range(g[2]) : g \in DOMAIN s.fl}
+
+JStateObjects(e, st) ==
+  IF Has(e.out, "names") /\ Range(e.out.names) = ObjectsOfState(st[e.s].st) THEN Ok(st) ELSE Fail("StateObjects", st)
+
+\* one equality condition (= (f args) value) per fluent of the state, values up to the print precision
+JFluentConditions(e, st) ==
+  LET s == st[e.s].st
+      obs == [i \in DOMAIN e.out.trees |-> FormulaOfTree(e.out.trees[i])]
+      wellShaped == \A i \in DOMAIN obs : obs[i].k = "cmp" /\ obs[i].op = "=" /\ obs[i].l.k = "fl" /\ obs[i].r.k = "num"
+  IN  IF Has(e.out, "exc") \/ ~wellShaped THEN Fail("FluentConditions:shape", st)
+      ELSE IF /\ {<<obs[i].l.f, obs[i].l.a>> : i \in DOMAIN obs} = DOMAIN s.fl
+              /\ Len(obs) = Cardinality(DOMAIN s.fl)
+              /\ \A i \in DOMAIN obs : NumClose(obs[i].r.v, s.fl[<<obs[i].l.f, obs[i].l.a>>], e.digits)
+           THEN Ok(st) ELSE Fail("FluentConditions:content", st)
+
+\* Domain.shallow_copy: the vocabulary and the action signatures, without the bodies
+Bodyless(D) == [D EXCEPT !.actions = [i \in DOMAIN D.actions |-> [D.actions[i] EXCEPT !.pre = TrueF, !.eff = <<>>]]]
+JShallowCopy(e, st) ==
+  LET D == st[e.d].D
+      s2 == Put(st, e.h, [kind |-> "domain", D |-> Bodyless(D), digest |-> (IF Has(e.out, "digest") THEN e.out.digest ELSE "none")])
+  IN  IF Has(e.out, "exc") THEN Fail("ShallowCopy:exception", st)
+      ELSE IF VocabSame(VocabOfJson(e.out.vocab), VocabOf(D)) /\ e.out.vocab.keys_ok THEN Ok(s2)
+      ELSE Fail("ShallowCopy:vocabulary", s2)
+
+\* in place by contract: the handle's action gets one more conjunct / loses one
+LitF(j) == IF j[1] THEN [k |-> "atom", p |-> j[2], a |-> j[3]] ELSE [k |-> "not", f |-> [k |-> "atom", p |-> j[2], a |-> j[3]]]
+WithPre(D, act, f) == [D EXCEPT !.actions = [i \in DOMAIN D.actions |-> IF D.actions[i].name = act THEN [D.actions[i] EXCEPT !.pre = f] ELSE D.actions[i]]]
+
+JAddLiteral(e, st) ==
+  LET D == st[e.d].D
+      a == ActionNamed(D, e.act)
+      pre2 == [k |-> "and", fs |-> Append(a.pre.fs, LitF(e.lit))]
+      s2 == Put(st, e.d, [kind |-> "domain", D |-> WithPre(D, e.act, pre2), digest |-> (IF Has(e.out, "digest") THEN e.out.digest ELSE "none")])
+  IN  IF Has(e.out, "exc") THEN Fail("AddLiteral:exception", st) ELSE Ok(s2)
+
+\* the literal to remove occurs exactly once, as a top-level conjunct (other cases are not generated)
+JRemoveLiteral(e, st) ==
+  LET D == st[e.d].D
+      a == ActionNamed(D, e.act)
+      idx == {i \in DOMAIN a.pre.fs : a.pre.fs[i] = LitF(e.lit)}
+      pre2 == [k |-> "and", fs |-> SelectSeq(a.pre.fs, LAMBDA x : x # LitF(e.lit))]
+      s2 == Put(st, e.d, [kind |-> "domain", D |-> WithPre(D, e.act, pre2), digest |-> (IF Has(e.out, "digest") THEN e.out.digest ELSE "none")])
+  IN  IF Has(e.out, "exc") THEN Fail("RemoveLiteral:exception", st)
+      ELSE IF Cardinality(idx) # 1 THEN Ok(s2)
+      ELSE Ok(s2)
+
+\* JointActionCall: derived views of a list of member calls
+JJointCallProps(e, st) ==
+  LET ms == MembersOfJson(e.members)
+      act == Active(ms)
+  IN  IF /\ e.out.count = Len(act)
+         /\ MembersOfJson(e.out.operational) = act
+         /\ e.out.params = FlattenSeq([i \in DOMAIN ms |-> ms[i].args])
+      THEN Ok(st) ELSE Fail("JointCallProps", st)
+
+----------------------------------------------------------------------------
 (* Grounding (C20) *)
 
 LitOfJson(j) == [pos |-> j[1], p |-> j[2], a |-> j[3], ty |-> j[4]]
@@ -644,6 +704,12 @@ Judge(e, st) ==
     [] e.c = "ExportTrajectory" -> JExportTrajectory(e, st)
     [] e.c = "ParseTrajectory"  -> JParseTrajectory(e, st)
     [] e.c = "Ground"       -> JGround(e, st)
+    [] e.c = "StateObjects" -> JStateObjects(e, st)
+    [] e.c = "FluentConditions" -> JFluentConditions(e, st)
+    [] e.c = "ShallowCopy"  -> JShallowCopy(e, st)
+    [] e.c = "AddLiteral"   -> JAddLiteral(e, st)
+    [] e.c = "RemoveLiteral" -> JRemoveLiteral(e, st)
+    [] e.c = "JointCallProps" -> JJointCallProps(e, st)
     [] e.c = "Rename"       -> JRename(e, st)
     [] e.c = "PrintExpr"    -> JPrintExpr(e, st)
     [] e.c = "CmpProbe"     -> JCmpProbe(e, st)
